@@ -45,7 +45,7 @@ TRUSTED = [
     "wrap_in_experimental_value and vectorize (anything else fails closed)",
 ]
 ASSUMPTIONS = [
-    "operands: a number, a single Measurement, a list / ndarray of numbers, another MeasurementArray of the same length "
+    "operands: a number, a single quantity (Measurement from one number, from repeated readings, or calculated), a list / ndarray of numbers, another MeasurementArray of the same length "
     "(length-1 broadcasting against longer operands is outside the property)",
     "element values inside the operators' domains (positive bases for **, arguments of log/sqrt positive, |x| < 1 for "
     "asin/acos); derivative error method (the default)",
@@ -110,6 +110,8 @@ def build_operand(o):
         return np.float64(o[1])
     if t == "meas":
         return q.Measurement(o[1], o[2], unit=o[3]) if o[3] else q.Measurement(o[1], o[2])
+    if t in ("rmeas", "derived"):
+        return build_single(o)
     if t == "list":
         return list(o[1])
     if t == "nd":
@@ -117,6 +119,20 @@ def build_operand(o):
     if t == "arr":
         return build_arr(o[1])
     raise ValueError(o)
+
+
+def build_single(o):
+    """a single quantity that is not a plain MeasuredValue:
+         ["rmeas", readings, errors or None, unit]  one measurement recorded from repeated readings
+         ["derived", v1, e1, v2, e2, unit]          a calculated quantity (v1 +/- e1) * (v2 +/- e2)"""
+    q = _q()
+    if o[0] == "rmeas":
+        kw = {"unit": o[3]} if o[3] else {}
+        if o[2] is None:
+            return q.Measurement(list(o[1]), **kw)
+        return q.Measurement(list(o[1]), list(o[2]), **kw)
+    kw = {"unit": o[5]} if o[5] else {}
+    return q.Measurement(o[1], o[2], **kw) * q.Measurement(o[3], o[4])
 
 
 def scalar_at(o, i):
@@ -130,6 +146,8 @@ def scalar_at(o, i):
         return np.float64(o[1])
     if t == "meas":
         return q.Measurement(o[1], o[2], unit=o[3]) if o[3] else q.Measurement(o[1], o[2])
+    if t in ("rmeas", "derived"):
+        return build_single(o)
     if t == "list":
         return o[1][i]
     if t == "nd":
@@ -153,6 +171,8 @@ def run_case(case):
     """-> (result or None, exception name or None, env: list of (object, description))"""
     reset_globals()
     q = _q()
+    import numpy as np
+    import qexpy.data.data as dt
     env = []
 
     def reg_arr(a, k):
@@ -163,7 +183,7 @@ def run_case(case):
         if o[0] == "arr":
             reg_arr(obj, counters["arr"])
             counters["arr"] += 1
-        elif o[0] == "meas":
+        elif o[0] in SINGLE:
             env.append((obj, ("meas", counters["meas"])))
             counters["meas"] += 1
     counters = {"arr": 0, "meas": 0}
@@ -193,6 +213,11 @@ def run_case(case):
                 res = q.log(x, y)
             else:
                 raise ValueError(kind)
+            # the elements must be usable: reading value / error / unit evaluates the Formula
+            items = list(res) if isinstance(res, (list, np.ndarray)) and getattr(res, "ndim", 1) >= 1 else [res]
+            for x in items:
+                if isinstance(x, dt.ExperimentalValue):
+                    _ = x.value, x.error, x.unit
         return res, None, env
     except Exception as e:  # noqa
         return None, type(e).__name__, env
@@ -258,7 +283,7 @@ def c_operand(o, counters):
     t = o[0]
     if t in ("num", "npnum"):      # a numpy scalar reaches the same element-level calls as a Python number
         return "(KNum {})".format(qlit(Fraction(o[1])))
-    if t == "meas":
+    if t in SINGLE:         # one quantity, however it was recorded or calculated
         counters["meas"] += 1
         return "(KMeas {})".format(natlit(counters["meas"] - 1))
     if t == "list":
@@ -316,6 +341,8 @@ def gen_arr(rng, n, dom, unit=None):
 
 
 def gen_operand(rng, kind, n, dom):
+    if kind in SINGLE_KINDS:
+        return gen_single(rng, kind, n, dom)
     if kind == "num":
         return ["num", gen_val(rng, dom)]
     if kind == "npnum":
@@ -329,6 +356,26 @@ def gen_operand(rng, kind, n, dom):
     return ["arr", gen_arr(rng, n, dom)]
 
 
+def gen_single(rng, kind, n, dom):
+    """kind = rmeas:<eq|ne>:<plain|err> | derived ; n = length of the array it meets"""
+    if kind == "derived":
+        a = gen_val(rng, "unit") if dom == "unit" else gen_val(rng, "pos")
+        b = dyadic(rng, 0.5, 1) if dom == "unit" else dyadic(rng, 0.5, 2)
+        return ["derived", a, gen_err(rng), b, gen_err(rng) / 4, rng.choice(UNITS)]
+    _, count, errs = kind.split(":")
+    if count == "eq" and n >= 2:
+        k = n
+    else:
+        k = rng.choice([c for c in (2, 3, 4, 6) if c != n])
+    while True:
+        readings = [float(gen_val(rng, "unit" if dom == "unit" else "pos")) for _ in range(k)]
+        if len(set(readings)) > 1:
+            break
+    return ["rmeas", readings, [gen_err(rng) for _ in range(k)] if errs == "err" else None, rng.choice(UNITS)]
+
+
+SINGLE = ("meas", "rmeas", "derived")
+SINGLE_KINDS = ["rmeas:eq:plain", "rmeas:eq:err", "rmeas:ne:plain", "rmeas:ne:err", "derived"]
 KINDS = ["num", "meas", "list", "nd", "arr"]
 
 
@@ -340,16 +387,18 @@ def grid(rng, draws):
             for op in BINOPS:
                 dom = "pos" if op == "**" else "any"
                 for sl in (True, False):
-                    for kind in KINDS + ["npnum"]:
+                    for kind in KINDS + ["npnum"] + SINGLE_KINDS:
                         other = gen_operand(rng, kind, n, "pos" if op in ("**", "/") else dom)
                         cases.append({"kind": "binop", "op": op, "self_left": sl,
                                       "A": gen_arr(rng, n, "pos" if op in ("**", "/") else dom), "other": other})
             cases.append({"kind": "neg", "A": gen_arr(rng, n, "any")})
             for f in FNAMES:
-                for kind in KINDS:
+                for kind in KINDS + (["rmeas:ne:plain", "derived"] if n == 2 else []):
                     cases.append({"kind": "fn", "f": f, "arg": gen_operand(rng, kind, n, "unit")})
-            for ka in KINDS:
-                for kb in KINDS:
+            for ka in KINDS + SINGLE_KINDS:
+                for kb in KINDS + SINGLE_KINDS:
+                    if ka in SINGLE_KINDS and kb in SINGLE_KINDS and n != 2:
+                        continue          # two scalars: no array involved, once is enough
                     cases.append({"kind": "log2", "a": gen_operand(rng, ka, n, "unit"),
                                   "b": gen_operand(rng, kb, n, "unit")})
     return cases
@@ -367,15 +416,21 @@ def malformed(rng):
     return cases
 
 
+def okind(o):
+    if o[0] == "rmeas":
+        return "rmeas" + ("+err" if o[2] is not None else "") + "[{}]".format(len(o[1]))
+    return o[0]
+
+
 def cell_of(case):
     k = case["kind"]
     if k == "binop":
-        return "binop:{}:{}:{}".format(case["op"], "A.op.x" if case["self_left"] else "x.op.A", case["other"][0])
+        return "binop:{}:{}:{}".format(case["op"], "A.op.x" if case["self_left"] else "x.op.A", okind(case["other"]))
     if k == "neg":
         return "neg"
     if k == "fn":
-        return "fn:{}:{}".format(case["f"], case["arg"][0])
-    return "log2:{}:{}".format(case["a"][0], case["b"][0])
+        return "fn:{}:{}".format(case["f"], okind(case["arg"]))
+    return "log2:{}:{}".format(okind(case["a"]), okind(case["b"]))
 
 
 # ---- correspondence ---------------------------------------------------------------------------------
@@ -402,9 +457,11 @@ def correspondence(ctx):
         res.nontrivial.add(cell + ":n={}".format(len(case.get("A", {}).get("values", [])) or
                                                  operand_len(case.get("arg", case.get("a", ["x"]))) or 1)
                            + (":raises" if exn else ""))
-    res.rule = ("the exhaustive grid: 5 binary operators x both operand orders x 6 operand kinds (number, numpy scalar, Measurement, list, "
+    res.rule = ("the exhaustive grid: 5 binary operators x both operand orders x 11 operand kinds (number, numpy scalar, Measurement, "
+                "a measurement recorded from repeated readings -- as many readings as array elements / a different number, "
+                "with / without individual reading uncertainties --, a calculated quantity, list, "
                 "ndarray, MeasurementArray) + unary minus + 19 vectorised math functions x 5 argument kinds + two-argument "
-                "log over 5 x 5 argument kinds, each for lengths 1, 2, 5 with random dyadic contents inside the domains "
+                "log over 10 x 10 argument kinds (both positions), each for lengths 1, 2, 5 with random dyadic contents inside the domains "
                 "(thorough: 40 content draws), plus operands of mismatched length (must raise). Observed: the container "
                 "kind and, for every element of the result, its Formula tree (operator literal, operand identities: i-th "
                 "element object of which array / the measurement / Constant with which value / plain number), compared "
@@ -581,8 +638,10 @@ def shrink_case(case):
     for key in ("other", "arg", "a", "b"):
         if key in c and c[key][0] == "arr":
             c[key][1]["unit"], c[key][1]["name"] = "", ""
-        if key in c and c[key][0] == "meas":
+        if key in c and c[key][0] in ("meas", "rmeas"):
             c[key][3] = ""
+        if key in c and c[key][0] == "derived":
+            c[key][5] = ""
     if fails(c):
         best = c
     return best
